@@ -32,6 +32,11 @@ def mutants(rng, raw, quick):
         out.append(("dup", raw[:j] + raw[i:]))
     for _ in range(5 if quick else 50):
         out.append(("truncate", raw[:rng.below(n)]))
+    # long flag sections (the flag byte followed by many continuation bytes)
+    if n > 6 and rng.chance(1, 3):
+        for nb in (8, 9, rng.choice([7, 10, 64, 600])):
+            for tail in (0x00, 0x80):
+                out.append(("longflags", raw[:5] + bytes([raw[5] | 1]) + b"\x01" * (nb - 1) + bytes([tail]) + raw[6:]))
     # size-field attacks
     if n > 14:
         for v in (0, 1, 0xffffffff, 0x7fffffff):
@@ -190,7 +195,8 @@ def run(ctx):
                           line, "numbers or an error value", a[-300:])
     # model comparison on a sample (class + kinds + bit positions)
     if ctx.model_ok:
-        sample = [i for i in range(len(lines)) if rng.chance(1, 3 if ctx.quick else 2) and ans[i] not in ("died", "timeout") and "panic" not in ans[i]]
+        sample = [i for i in range(len(lines)) if rng.chance(1, (5 if info[i][1] in ("lying-ast", "longflags") else 4) if ctx.quick else 2)
+                  and ans[i] not in ("died", "timeout") and "panic" not in ans[i]]
         # keep the model's work bounded: skip mutants for which the implementation produced millions of numbers
         # (a forged 24-bit count makes the model build lists of millions of numbers: implementation-only cases)
         sample = [i for i in sample if info[i][1] not in ("count", "field:nprefs") and not any(int(x) > 300000 for x in __import__("re").findall(r"n=(\d+)", ans[i]))]
